@@ -135,7 +135,14 @@ pub fn hostile_seek(rng: &mut Rng) -> u64 {
                 (1u64 << 38) + rng.below(1 << 20)
             }
         }
-        5 => (1u64 << 40) + 3,
+        5 => {
+            if rng.chance(1, 2) {
+                // the very end of the 2^64-1 byte stream (callers clamp so that reads stay inside)
+                u64::MAX - rng.below(300)
+            } else {
+                (1u64 << 40) + 3
+            }
+        }
         6 => 1u64 << 63,
         7 => 64 * rng.below(1 << 40) + rng.below(64),
         8 => rng.below(5000),
